@@ -72,4 +72,6 @@ def run(prog, rep):
     rep.rule("C02-R6", "values computed inside a restricted scope are not stored / served under a key that does not name the restriction")
     cacheproto.check_store_guard(prog, rep, "C02-R6", en)
     cacheproto.check_read_guard(prog, rep, "C02-R6", en)
-    rep.floor("C02-R6", 4)
+    # wild-card sets cannot be recomputed: their entries are never evicted and every hit is counted once (shared with C04-R5 / C10-R2)
+    cacheproto.check_eviction_and_counter(prog, rep, "C02-R6", en)
+    rep.floor("C02-R6", 10)
